@@ -538,7 +538,8 @@ class ITerm2Image(GraphicsImage, metaclass=ITerm2ImageMeta):
             print(
                 first_frame,
                 "\r",
-                CURSOR_UP % (lines - 1),
+                # A parameter of zero is taken as one by terminals
+                CURSOR_UP % (lines - 1) if lines > 1 else "",
                 sep="",
                 end="",
                 flush=True,
